@@ -4,12 +4,18 @@ from props import cow, cow2
 
 PROP = 'C01'
 def run_shape(item, ob):
+    if item[0] == 'pair':
+        from props import equiv
+        equiv.MIR = cow.MIR; return equiv.run_item(item, ob)
     if item[0] in ('dict', 'str'): cow2.run_shape(item, ob, 'C01')
     else: cow.run_shape(item, ob, 'C01')
 
 def main(tier, seed, t0):
     cow.MIR, th = load_mir('on'); cow2.MIR = cow.MIR
     items = cow.items_for(tier, seed) + cow2.items_for(tier, seed)
+    # statement level: mutation statements run by the real evaluator == the explicit functional update, copies untouched (props/equiv.py family C01)
+    from props import equiv
+    equiv.MIR = cow.MIR; equiv.preparse('C01'); items += equiv.items_for('C01')
     merged, per = pmap(run_shape, items, tier)
     return finish(PROP, tier, seed, merged, t0, th=th,
         kernels=['eval.rs: set_index (list / nested list / vector / bytes / dict / string arms, every-slice arm, LHS-dropping call), modify_existing_index (list and dict arms incl. the default-materialising Vacant case)',
@@ -17,6 +23,6 @@ def main(tier, seed, t0):
         bounds={'targets': 'list of 3, nested list 2x2, vector of 3, bytes of 3, list of 2 vectors, dict {10:[0,1], 11:[2,3]} with and without default, string "abc"',
                 'aliases': 'none / outer allocation / inner allocation (row) / both', 'index path': 'every integer in both representations (depth 1 or 2); dict key: every integer (hit either entry or miss); slice bounds every isize',
                 'steps': 'one mutation step from an arbitrary aliased pre-state (inductive step: the post-state is again a pre-state of the same family)'},
-        outside=['statement-level evaluator paths (closures sharing Env cells, for-loop binding, swap, consume)', 'struct-instance arms', 'non-ASCII strings', 'builtins that rebuild collections (append, ++, |., ...)'],
+        outside=['statement-level evaluator paths beyond the 19 statement equivalences of props/equiv.py family C01 (closures sharing Env cells, for-loop binding, struct fields)', 'struct-instance arms', 'non-ASCII strings', 'builtins that rebuild collections (append, ++, |., ...)'],
         assumptions=['Rc model: clone/drop/make_mut/get_mut/try_unwrap follow the std contract with explicit strong counts', 'HashMap = association list; lookup = real ObjKey Eq and equal real hash traces',
                      'safe Rust: mutation through a shared Rc is impossible, so the faults visible here are wrong slot / wrong level / lost write / wrong clone point / lost restore'])
